@@ -1,6 +1,7 @@
 import NrDaemon.Model.Proc
 import NrDaemon.Gen.SwapTable
 import NrDaemon.Lemmas.Ledger
+import NrDaemon.Lemmas.Containers
 /-!
   C01 — accepted data is delivered exactly once when the collector accepts.
 
@@ -115,3 +116,82 @@ theorem C01_all_delivered_when_accepted (cap limit : Nat) (es : List Ev) (hroom 
   simp only [hinf, hack, CatM.init, List.nil_append, List.getElem?_cons_zero]
   rw [hevs']
   simpa using hperm
+
+/-! ## The ledger of every other category (`Model/GLedger.lean`, `Model/Containers.lean`)
+
+The same machine with the container abstracted (`GM`): offers, swap-then-send harvests, acknowledgements, retryable and
+fatal failures in any order, any number of requests in flight.  `gLedger` proves conservation for every *lawful*
+container; each container of a harvest is shown lawful in `Lemmas/Containers.lean`.  Which categories merge a failed
+payload back (`mergeFailed`) and which drop it is the regenerated `FailedHarvest` table (`C02_retry_categories`). -/
+
+/-- **C01 (errors: every error is in exactly one place, all histories, every capacity).** -/
+theorem C01_error_ledger (cap : Nat) (evs : List (GEvent Ev)) :
+    let s := (GM.init (errCont cap)).run (errCont cap) evs
+    ∃ lost, (s.cur.toList ++ s.inflight.flatMap (·.toList) ++ s.acked ++ lost).Perm s.offered :=
+  gLedger (errCont cap) _ (errCont_lawful cap) evs
+
+/-- **C01 (traces of one kind).** -/
+theorem C01_trace_ledger (cap : Nat) (evs : List (GEvent Ev)) :
+    let s := (GM.init (traceCont cap)).run (traceCont cap) evs
+    ∃ lost, (s.cur.toList ++ s.inflight.flatMap (·.toList) ++ s.acked ++ lost).Perm s.offered :=
+  gLedger (traceCont cap) _ (traceCont_lawful cap) evs
+
+/-- **C01 (package lists): a later list replaces an earlier one, which is then accounted as dropped.** -/
+theorem C01_package_ledger (evs : List (GEvent Nat)) :
+    let s := (GM.init pkgCont).run pkgCont evs
+    ∃ lost, (s.cur.toList ++ s.inflight.flatMap (·.toList) ++ s.acked ++ lost).Perm s.offered :=
+  gLedger pkgCont _ pkgCont_lawful evs
+
+/-- **C01 (slow SQLs): every observation is merged into exactly one statement that is held, in flight or
+acknowledged, or was dropped with its statement.** -/
+theorem C01_slowsql_ledger (cap : Nat) (evs : List (GEvent Obs)) :
+    let s := (GM.init (slowCont cap)).run (slowCont cap) evs
+    ∃ lost, (s.cur.flatMap (·.2) ++ s.inflight.flatMap (fun l => l.flatMap (·.2)) ++ s.acked ++ lost).Perm s.offered :=
+  gLedger (slowCont cap) _ (slowCont_lawful cap) evs
+
+/-- **C01 (metrics): every contribution is aggregated into exactly one table entry that is held, in flight or
+acknowledged, or was refused at the capacity limit / given up at the attempt limit / failed fatally — for every
+capacity, every attempt limit and every history, carried-over tables included.** -/
+theorem C01_metric_ledger (max limit : Nat) (evs : List (GEvent Contrib)) :
+    let s := (GM.init (mtCont max limit)).run (mtCont max limit) evs
+    ∃ lost, (s.cur.ms.flatMap (·.2.2) ++ s.inflight.flatMap (fun t => t.ms.flatMap (·.2.2)) ++ s.acked ++ lost).Perm s.offered :=
+  gLedger (mtCont max limit) _ (mtCont_lawful max limit) evs
+
+/-- **C01 (nothing is delivered twice, every category).**  With pairwise distinct units of data, for each of the
+containers: nothing is acknowledged twice, and what has been acknowledged is neither held nor in flight any more. -/
+theorem C01_at_most_once_every_category :
+    (∀ cap (evs : List (GEvent Ev)), ((GM.init (errCont cap)).run (errCont cap) evs).offered.Nodup →
+        ((GM.init (errCont cap)).run (errCont cap) evs).acked.Nodup) ∧
+    (∀ cap (evs : List (GEvent Ev)), ((GM.init (traceCont cap)).run (traceCont cap) evs).offered.Nodup →
+        ((GM.init (traceCont cap)).run (traceCont cap) evs).acked.Nodup) ∧
+    (∀ (evs : List (GEvent Nat)), ((GM.init pkgCont).run pkgCont evs).offered.Nodup →
+        ((GM.init pkgCont).run pkgCont evs).acked.Nodup) ∧
+    (∀ cap (evs : List (GEvent Obs)), ((GM.init (slowCont cap)).run (slowCont cap) evs).offered.Nodup →
+        ((GM.init (slowCont cap)).run (slowCont cap) evs).acked.Nodup) ∧
+    (∀ max limit (evs : List (GEvent Contrib)), ((GM.init (mtCont max limit)).run (mtCont max limit) evs).offered.Nodup →
+        ((GM.init (mtCont max limit)).run (mtCont max limit) evs).acked.Nodup ∧
+        ∀ c ∈ ((GM.init (mtCont max limit)).run (mtCont max limit) evs).acked,
+          c ∉ ((GM.init (mtCont max limit)).run (mtCont max limit) evs).cur.ms.flatMap (·.2.2)) :=
+  ⟨fun cap evs h => (gLedger_at_most_once _ _ (errCont_lawful cap) evs h).1,
+   fun cap evs h => (gLedger_at_most_once _ _ (traceCont_lawful cap) evs h).1,
+   fun evs h => (gLedger_at_most_once _ _ pkgCont_lawful evs h).1,
+   fun cap evs h => (gLedger_at_most_once _ _ (slowCont_lawful cap) evs h).1,
+   fun max limit evs h => ⟨(gLedger_at_most_once _ _ (mtCont_lawful max limit) evs h).1,
+     fun c hc => ((gLedger_at_most_once _ _ (mtCont_lawful max limit) evs h).2 c hc).1⟩⟩
+
+/-- **C01 (the ghost-carrying containers are the containers).**  Forgetting the ghosts, the slow-SQL and metric
+containers of the ledger machines are exactly `slowObserve`, `MTable.mergeMetric` and `MTable.mergeFailed` — the
+definitions the engines `slow` and `mt` compare with the real `SlowSQLs` and `MetricTable` after every operation. -/
+theorem C01_ghosts_refine :
+    (∀ cap (l : List SlowG) (o : Obs), (slowObserveG cap l o).map (·.1) = slowObserve cap (l.map (·.1)) o.1) ∧
+    (∀ (t : MTG) k m g, t.Inv → (t.mergeG k m g).proj = t.proj.mergeMetric k m) ∧
+    (∀ limit (t p : MTG), t.Inv → (t.mergeFailed limit p).proj = t.proj.mergeFailed limit p.proj) :=
+  ⟨slowObserveG_proj, MTG.mergeG_proj, fun limit t p h => MTG.mergeFailed_proj limit t p h⟩
+
+/-- non-vacuity: a metric history with a refusal at capacity, a carried-over table and an acknowledgement -/
+example :
+    let c1 : Contrib := (("a", ""), { forced := false, d := ⟨1, 2, 3, 4, 5, 6⟩ }, 1)
+    let c2 : Contrib := (("b", ""), { forced := false, d := ⟨1, 2, 3, 4, 5, 6⟩ }, 2)
+    let c3 : Contrib := (("a", ""), { forced := false, d := ⟨1, 1, 1, 1, 1, 1⟩ }, 3)
+    let s := (GM.init (mtCont 1 5)).run (mtCont 1 5) [.offer c1, .offer c2, .harvest, .offer c3, .retry 0, .harvest, .ack 0]
+    s.acked.map (·.2.2) = [3, 1] ∧ s.offered.length = 3 := by decide
